@@ -153,8 +153,11 @@ def _attributed_extent(toks, k):
                 continue
             if nx is not None and nx.kind == 'punct' and nx.text in (',', ';'):
                 return c + 1
-            if nx is not None and nx.kind == 'punct' and nx.text in ('.', '?'):
+            if nx is not None and nx.kind == 'punct' and nx.text in ('.', '?', '=>', '|'):
                 j = c + 1
+                continue
+            if nx is not None and nx.kind == 'id' and nx.text == 'if':
+                j = c + 1   # match-arm guard after a struct pattern
                 continue
             return c
         if t.kind == 'punct' and t.text in (';', ','):
@@ -496,6 +499,8 @@ def fn_signature_parts(text, toks):
             where = j
         if x.kind == 'punct' and x.text == '{':
             return kw, j, arrow, where
+        if x.kind == 'punct' and x.text == ';':
+            return kw, j, arrow, where
         j += 1
     raise Undecided('fn without body')
 
@@ -510,7 +515,10 @@ def weave_fn(w, item_id, text, spec, log):
             _kw, _bo, _a, _w = fn_signature_parts(text, toks0)
             at = toks0[_bo].end
             c = Clause(p.get('label', 'proof'), '', props, 'proof')
-            text = text[:at] + ' ' + w.mark(item_id, c) + ' proof { ' + p['text'].strip() + ' } ' + text[at:]
+            if p.get('ghost'):
+                text = text[:at] + ' ' + w.mark(item_id, c) + ' ' + p['text'].strip() + ' ' + text[at:]
+            else:
+                text = text[:at] + ' ' + w.mark(item_id, c) + ' proof { ' + p['text'].strip() + ' } ' + text[at:]
             continue
         if 'after_loop' in p:
             toksl = R.lex(text)
@@ -521,7 +529,11 @@ def weave_fn(w, item_id, text, spec, log):
             close = R.match_close(toksl, lps[k - 1][1])
             at = toksl[close].end
             c = Clause(p.get('label', 'proof'), '', props, 'proof')
-            text = text[:at] + ' ' + w.mark(item_id, c) + ' proof { ' + p['text'].strip() + ' } ' + text[at:]
+            if p.get('ghost'):
+                # a ghost `let` that has to stay in scope for the whole body (erased by Verus)
+                text = text[:at] + ' ' + w.mark(item_id, c) + ' ' + p['text'].strip() + ' ' + text[at:]
+            else:
+                text = text[:at] + ' ' + w.mark(item_id, c) + ' proof { ' + p['text'].strip() + ' } ' + text[at:]
             continue
         anchor = p.get('after') or p.get('before')
         nth = p.get('nth', 1)
@@ -593,6 +605,85 @@ def weave_fn(w, item_id, text, spec, log):
         attrs += spec['attrs'] + ' '
     head = newsig[:toks[0].start] + attrs + newsig[toks[0].start:]
     return head.rstrip() + contract + text[sig_end:]
+
+
+def weave_impl(w, item_id, text, spec, log, metas, base_meta):
+    """Weave contracts into the methods of a whole `impl` item (needed for trait impls, which must
+    stay one block).  spec['impl_methods'] = {name: fn-spec}.  Every method becomes an item of its own
+    for obligation accounting (id `<item_id>::<method>`)."""
+    toks = R.lex(text)
+    bo = None
+    for i, t in enumerate(toks):
+        if t.kind == 'punct' and t.text == '{':
+            bo = i
+            break
+    bc = R.match_close(toks, bo)
+    methods = [x for x in R.items_in(text, toks, bo + 1, bc) if x.kind == 'fn']
+    im = dict(spec.get('impl_methods', {}))
+    pieces = []
+    last = toks[bo].end
+    head = text[:last] + '\n' + (spec.get('trait_extra', '') or '') + '\n'
+    canaries = []
+    for m in methods:
+        a, b = toks[m.first].start, toks[m.last].end
+        pieces.append(text[last:a])
+        mt = text[a:b]
+        ms = im.pop(m.name, None)
+        mid = item_id + '::' + m.name
+        if ms is not None:
+            ms = dict(ms)
+            ms.setdefault('props', spec.get('props', []))
+            for lr in ms.get('loop_rewrites', []) or []:
+                mt = rule_for_to_while(mt, lr[0], lr[1], log, mid)
+            mt = apply_regex_rewrites(mt, ms.get('rewrites', []), log, mid, 'R8')
+            raw_m = mt
+            woven = weave_fn(w, mid, mt, ms, log)
+            pieces.append('/*@ITEM_BEGIN %s@*/\n%s\n/*@ITEM_END %s@*/' % (mid, woven, mid))
+            mm = dict(base_meta)
+            mm.update(id=mid, kind='fn', props=ms.get('props', []), trusted=bool(ms.get('trusted')),
+                      verified=not ms.get('trusted'), method_of=item_id)
+            metas.append(mm)
+            canaries.append((mid, raw_m, ms))
+        else:
+            pieces.append(mt)
+        last = b
+    if im:
+        raise Undecided('%s: impl methods not found: %s' % (item_id, sorted(im)))
+    pieces.append(text[last:])
+    return head + ''.join(pieces), canaries
+
+
+def weave_trait(w, item_id, text, spec, log):
+    """Weave contracts into the method declarations of a trait item.
+    spec['trait_methods'] = {name: fn-spec}; spec['trait_extra'] = ghost members added at the top."""
+    toks = R.lex(text)
+    # body of the trait
+    bo = None
+    for i, t in enumerate(toks):
+        if t.kind == 'punct' and t.text == '{':
+            bo = i
+            break
+    bc = R.match_close(toks, bo)
+    methods = [x for x in R.items_in(text, toks, bo + 1, bc) if x.kind == 'fn']
+    tm = dict(spec.get('trait_methods', {}))
+    pieces = []
+    last = toks[bo].end
+    out_head = text[:last] + '\n' + (spec.get('trait_extra', '') or '') + '\n'
+    for m in methods:
+        a, b = toks[m.first].start, toks[m.last].end
+        pieces.append(text[last:a])
+        mt = text[a:b]
+        ms = tm.pop(m.name, None)
+        if ms is not None:
+            ms = dict(ms)
+            ms.setdefault('props', spec.get('props', []))
+            mt = weave_fn(w, item_id + '::' + m.name, mt, ms, log)
+        pieces.append(mt)
+        last = b
+    if tm:
+        raise Undecided('%s: trait methods not found: %s' % (item_id, sorted(tm)))
+    pieces.append(text[last:])
+    return out_head + ''.join(pieces)
 
 
 # ----------------------------------------------------------------------------
@@ -719,7 +810,30 @@ def build_unit(unit, repo, variant=None):
                         canary_parts.append('/*@ITEM_BEGIN %s@*/\n%s {\n%s\n}\n/*@ITEM_END %s@*/\n' % (cname, hdr, ctext, cname))
                     else:
                         canary_parts.append('/*@ITEM_BEGIN %s@*/\n%s\n/*@ITEM_END %s@*/\n' % (cname, ctext, cname))
+        elif kind == 'impl':
+            base = dict(meta)
+            hdr_end = text.index('{')
+            hdr = text[:hdr_end]
+            if spec.get('impl_header'):
+                text = spec['impl_header'] + ' ' + text[hdr_end:]
+            woven, cans = weave_impl(w, item_id, text, spec, ilog, items_meta, base)
+            parts.append('// ---- item %s  (%s:%d-%d) ----\n' % (item_id, spec['src'], a, b))
+            parts.append(woven + '\n')
+            meta['verified'] = False
+            if variant == 'vacuity':
+                hdr2 = woven[:woven.index('{')]
+                if ' for ' in hdr2:
+                    # trait impls cannot take extra methods: canary copies go to an inherent impl
+                    hdr2 = re.sub(r'impl(<[^>]*>)?\s+.*?\s+for\s+', lambda mm: 'impl%s ' % (mm.group(1) or ''), hdr2, count=1)
+                for (mid, raw_m, ms) in cans:
+                    if ms.get('trusted'):
+                        continue
+                    for cn in _canary_variants(w, mid, raw_m, ms, ilog):
+                        cname, ctext = cn
+                        canary_parts.append('/*@ITEM_BEGIN %s@*/\n%s {\n%s\n}\n/*@ITEM_END %s@*/\n' % (cname, hdr2.strip(), ctext, cname))
         else:
+            if kind == 'trait' and (spec.get('trait_methods') or spec.get('trait_extra')):
+                text = weave_trait(w, item_id, text, spec, ilog)
             if spec.get('derive'):
                 text = spec['derive'] + '\n' + text
             hdr = impl_header_for(src, toks, path)
